@@ -362,6 +362,16 @@ theorem C05_cache_transparent_bp (f : File) (ix : List Entry) (ops : List Op) :
     runC f ix Cache.empty ops = ops.map (pureAns f ix) :=
   runC_spec f ix ops Cache.empty (CacheOk_empty f)
 
+/-- Cache transparency at the granularity the code locks at: `iter_symbols` takes the cache mutex once *per element*,
+so other threads' lookups and elements interleave with one thread's enumeration. For every sequence of critical
+sections (a lookup, or element `i` of somebody's enumeration) starting from the empty cache, each result equals the
+cache-free meaning of that step alone; and the elements `0..symbol_count()` put together are the cache-free
+enumeration — whatever was interleaved. -/
+theorem C05_cache_transparent_bp_per_element (f : File) (ix : List Entry) (steps : List Step) :
+    runSteps f ix Cache.empty steps = steps.map (pureStep f ix) ∧
+    (List.range ix.length).filterMap (iterElem f ix) = iterSymbols f ix :=
+  ⟨runSteps_spec f ix steps Cache.empty (CacheOk_empty f), iterSymbols_eq_elems f ix⟩
+
 theorem C05_no_panic_bp (f : File) (ix : List Entry) (a : Addr) : lookup f ix a ≠ .panic := by
   cases a with
   | rel a => exact lookupRel_no_panic f ix a
@@ -492,6 +502,13 @@ theorem C05_forms_jit (entries : List Entry) (ix : Index) (hw : WF entries)
 theorem C05_cache_transparent_jit (ix : Index) (ops : List Op) :
     runC ix [] ops = ops.map (pureAns ix) :=
   runC_spec ix ops [] (MemoOk_nil _)
+
+/-- Cache transparency per element (the `names` cache is locked once per element of `iter_symbols`), see
+`C05_cache_transparent_bp_per_element`. -/
+theorem C05_cache_transparent_jit_per_element (ix : Index) (steps : List Step) :
+    runSteps ix [] steps = steps.map (pureStep ix) ∧
+    (List.range ix.rels.length).filterMap (iterElem ix) = iterSymbols ix :=
+  ⟨runSteps_spec ix steps [] (MemoOk_nil _), iterSymbols_eq_elems ix⟩
 
 theorem C05_no_panic_jit (entries : List Entry) (ix : Index) (hw : WF entries)
     (hb : buildIndex entries = some ix) (a : Addr) : lookup ix a ≠ .panic := by
